@@ -399,6 +399,11 @@ func judgeC02(c SrvCase) []Violation {
 }
 
 func checkC02(r *Result, rng *rand.Rand, thorough bool) {
+	traces, doneTraces := collectTraces(200)
+	defer func() {
+		doneTraces()
+		compareSrv(r, "srv", *traces)
+	}()
 	ncases, n := 120, 40
 	if thorough {
 		ncases, n = 600, 80
